@@ -170,11 +170,25 @@ def check(ctx):
         reported.add(k)
         ctx.ob(rule, ok, where, f.qual, construct, detail, **kw)
 
+    plain = {'ok': False}
+
     def is_x(expr):
-        """norm, True when expr is norm(self.match % target)"""
+        """norm, True when expr is norm(self.match % target) - or, on a
+        path that established that the pattern holds no `%` at all,
+        norm(self.match): substituting into such a pattern changes
+        nothing"""
         e = t.expand(expr)
         n, src = norm_of(e)
+        if plain['ok'] and U(t.expand(src)) == 'self.match':
+            return n, True
         return n, substituted_match(t, src, target_p)
+
+    def no_placeholder_test(ce):
+        x = t.expand(ce)
+        return isinstance(x, ast.Compare) and len(x.ops) == 1 and \
+            isinstance(x.ops[0], ast.In) and is_const(x.left) and \
+            x.left.value in ('%', '%(') and U(x.comparators[0]) == \
+            'self.match'
 
     for p in t.paths:
         where = '%s:%d' % (W.split(':')[0], p.outcome.line)
@@ -199,8 +213,14 @@ def check(ctx):
         keys = set()
         guard_keys = set()
         scanned = None
+        plain['ok'] = any(c.kind == 'test' and not c.pol and
+                          no_placeholder_test(c.expr) and is_const(
+                              t.expand(c.expr).left, '%') for c in p.conds)
         for c in p.conds:
             ce = c.expr
+            if c.kind == 'test' and no_placeholder_test(ce) and (
+                    c.pol or plain['ok']):
+                continue        # which way the pattern is filled in
             if c.kind == 'exc':
                 if 'KeyError' in str(ce.value):
                     reasons.append('substitution failed')
